@@ -269,7 +269,7 @@ pub fn c07_ops(b: &Base) -> Vec<Op> {
 pub fn c07(c: &Collector, g: &mut Guard) {
     let spec = Spec {
         geoms: geoms(c),
-        fills: vec![Fill::F0, Fill::F1, Fill::F3],
+        fills: vec![Fill::F0, Fill::F1, Fill::F3, Fill::F7],
         cursors: CursorSel::All,
         regions: RegionSel::Some,
         modesets: vec![],
@@ -311,7 +311,7 @@ fn is_c13_judged(op: &Op) -> bool {
 pub fn c13(c: &Collector, g: &mut Guard) {
     let spec = Spec {
         geoms: geoms(c),
-        fills: vec![Fill::F0, Fill::F1, Fill::F2, Fill::F3, Fill::F6],
+        fills: vec![Fill::F0, Fill::F1, Fill::F2, Fill::F3, Fill::F6, Fill::F7],
         cursors: CursorSel::All,
         regions: RegionSel::Some,
         modesets: vec![],
@@ -556,7 +556,7 @@ pub fn c04_ops(b: &Base) -> Vec<Op> {
 pub fn c04(c: &Collector, g: &mut Guard) {
     let spec = Spec {
         geoms: geoms(c),
-        fills: vec![Fill::F0, Fill::F1, Fill::F2, Fill::F3, Fill::F4],
+        fills: vec![Fill::F0, Fill::F1, Fill::F2, Fill::F3, Fill::F4, Fill::F7],
         cursors: CursorSel::All,
         regions: RegionSel::Some,
         modesets: vec![],
